@@ -149,8 +149,8 @@ Definition multi_guard (c : cmd) : option (bool * list bytes) :=
     match elem c 2 with
     | Some ns =>
       match btoi_usize ns with
-      | Some n => if n =? 1 then None else if u64_max <? 3 + n then None
-                  else Some (true, filter_some (firstn_N n (skipn 3 c)))
+      | Some n => if n =? 1 then None else if u64_max <? 3 + eval_key_count c n then None
+                  else Some (true, filter_some (firstn_N (eval_key_count c n) (skipn 3 c)))
       | None => None
       end
     | None => None
@@ -183,8 +183,8 @@ Proof.
     unfold handle_multi_int. rewrite Ha, E. reflexivity.
   - unfold handle_eval. destruct (elem c 2) as [ns|]; [|discriminate].
     destruct (btoi_usize ns) as [n|]; [|discriminate].
-    destruct (n =? 1); [discriminate|]. destruct (u64_max <? 3 + n); [discriminate|].
-    assert (E : same_slot (filter_some (firstn_N n (skipn 3 c))) = false) by (injection Hg as _ <-; exact Hs).
+    destruct (n =? 1); [discriminate|]. destruct (u64_max <? 3 + eval_key_count c n); [discriminate|].
+    assert (E : same_slot (filter_some (firstn_N (eval_key_count c n) (skipn 3 c))) = false) by (injection Hg as _ <-; exact Hs).
     rewrite E. reflexivity.
 Qed.
 
@@ -415,8 +415,8 @@ Proof.
   - left. unfold handle_eval in H. destruct (elem c 2) as [ns|]; [|destruct H].
     destruct (btoi_usize ns) as [n|]; [|destruct H].
     destruct (n =? 1); [eapply single_sent; eauto|].
-    destruct (u64_max <? 3 + n); [destruct H|].
-    destruct (negb (same_slot (filter_some (firstn_N n (skipn 3 c))))); [destruct H|].
+    destruct (u64_max <? 3 + eval_key_count c n); [destruct H|].
+    destruct (negb (same_slot (filter_some (firstn_N (eval_key_count c n) (skipn 3 c))))); [destruct H|].
     eapply single_sent; eauto.
   - left. eapply single_sent; eauto.
   - destruct H.
@@ -427,28 +427,28 @@ Qed.
 Lemma eval_keys_same_slot : forall bk cf ins redir c ns n a c',
   data_kind c = DEval -> elem c 2 = Some ns -> btoi_usize ns = Some n -> n <> 1 ->
   In (a, c') (out_sent (handle_data bk cf ins redir c)) ->
-  same_slot (filter_some (firstn_N n (skipn 3 c))) = true.
+  same_slot (filter_some (firstn_N (eval_key_count c n) (skipn 3 c))) = true.
 Proof.
   intros bk cf ins redir c ns n a c' EK E2 EN Hn1 H. unfold handle_data in H. rewrite EK in H.
   unfold handle_eval in H. rewrite E2, EN in H.
   destruct (n =? 1) eqn:E1; [apply N.eqb_eq in E1; congruence|].
-  destruct (u64_max <? 3 + n); [destruct H|].
-  destruct (same_slot (filter_some (firstn_N n (skipn 3 c)))) eqn:E; [reflexivity|].
+  destruct (u64_max <? 3 + eval_key_count c n); [destruct H|].
+  destruct (same_slot (filter_some (firstn_N (eval_key_count c n) (skipn 3 c)))) eqn:E; [reflexivity|].
   cbn [negb out_sent refuse] in H. destruct H.
 Qed.
 
 (* no panic unless EVAL's numkeys makes 3 + numkeys overflow, or the summed integer replies overflow a usize *)
 Lemma eval_panic_only_overflow : forall bk cf ins redir c,
   handle_eval bk cf ins redir c = OutPanic ->
-  exists ns n, elem c 2 = Some ns /\ btoi_usize ns = Some n /\ u64_max < 3 + n.
+  exists ns n, elem c 2 = Some ns /\ btoi_usize ns = Some n /\ u64_max < 3 + N.of_nat (length c).
 Proof.
   intros bk cf ins redir c H. unfold handle_eval in H.
   destruct (elem c 2) as [ns|]; [|discriminate]. destruct (btoi_usize ns) as [n|] eqn:EN; [|discriminate].
   destruct (n =? 1).
   { destruct (single bk cf ins redir c); discriminate. }
-  destruct (u64_max <? 3 + n) eqn:E.
-  - exists ns, n. repeat split; auto. apply N.ltb_lt; auto.
-  - destruct (negb (same_slot (filter_some (firstn_N n (skipn 3 c))))); [discriminate|].
+  destruct (u64_max <? 3 + eval_key_count c n) eqn:E.
+  - exists ns, n. repeat split; auto. apply N.ltb_lt in E. unfold eval_key_count in E. lia.
+  - destruct (negb (same_slot (filter_some (firstn_N (eval_key_count c n) (skipn 3 c))))); [discriminate|].
     destruct (single bk cf ins redir c); discriminate.
 Qed.
 
